@@ -15,15 +15,15 @@ import (
 //
 // Decided (structural necessary conditions):
 //
-//	R-guarded-by      every post-construction access to a registry map / order slice holds the
-//	                  owning struct's RWMutex; writes hold it exclusively
-//	R-snapshot        within one function all accesses to one owner's registry fields lie in one
-//	                  critical section (same acquisition), so a list is a snapshot
-//	R-atomic-replace  registration stores one freshly allocated record (or a func value) with a
-//	                  single map store; records already in a registry are never mutated in place
-//	R-order           resources/list is produced by walking the order slice, never by ranging the map
-//   R-handler-unlocked  no registry lock is held while user code runs
-//   R-one-registry      every caller of an options constructor with a fallback registry supplies its own registry
+//		R-guarded-by      every post-construction access to a registry map / order slice holds the
+//		                  owning struct's RWMutex; writes hold it exclusively
+//		R-snapshot        within one function all accesses to one owner's registry fields lie in one
+//		                  critical section (same acquisition), so a list is a snapshot
+//		R-atomic-replace  registration stores one freshly allocated record (or a func value) with a
+//		                  single map store; records already in a registry are never mutated in place
+//		R-order           resources/list is produced by walking the order slice, never by ranging the map
+//	  R-handler-unlocked  no registry lock is held while user code runs
+//	  R-one-registry      every caller of an options constructor with a fallback registry supplies its own registry
 func init() { Registry["C12"] = checkC12 }
 
 type registryInfo struct {
